@@ -361,6 +361,12 @@ fn bisync_history(case: &Value, base: &Path) -> Value {
             if let Some(n) = names.first() {
                 std::fs::write(root.join(n), unhex(s[2].as_str().unwrap())).unwrap();
             }
+        } else if let Some(s) = step.get("dir_to_file") {
+            // a directory is replaced by a regular file of the same name
+            let root = if s[0].as_str() == Some("A") { &ra } else { &rb };
+            let p = root.join(s[1].as_str().unwrap());
+            let _ = std::fs::remove_dir_all(&p);
+            std::fs::write(&p, unhex(s[2].as_str().unwrap())).unwrap();
         } else if let Some(s) = step.get("set") {
             let root = if s[0].as_str() == Some("A") { &ra } else { &rb };
             let p = root.join(s[1].as_str().unwrap());
@@ -467,7 +473,20 @@ fn pair_hash_case(base: &Path) -> Value {
         }
     }
     let order_sensitive = archive::root_pair_hash(&pairs[2].0, &pairs[2].1) != archive::root_pair_hash(&pairs[2].1, &pairs[2].0);
-    json!({"collisions": collisions, "order_sensitive": order_sensitive, "ids": ids.len()})
+    // a root named through a SYMLINK is the directory it points to: same id as that directory, another id once the link is re-pointed
+    let (t1, t2, m) = (mk(b"target-1"), mk(b"target-2"), mk(b"mirror"));
+    let link = world.join("current");
+    let _ = std::fs::remove_file(&link);
+    let _ = std::os::unix::fs::symlink(&t1, &link);
+    let via_link_1 = archive::root_pair_hash(&link, &m);
+    let direct_1 = archive::root_pair_hash(&t1, &m);
+    let _ = std::fs::remove_file(&link);
+    let _ = std::os::unix::fs::symlink(&t2, &link);
+    let via_link_2 = archive::root_pair_hash(&link, &m);
+    if via_link_1 == via_link_2 {
+        collisions.push(json!(["current -> target-1", "current -> target-2 (the same link name, another directory)"]));
+    }
+    json!({"collisions": collisions, "order_sensitive": order_sensitive, "ids": ids.len(), "symlink_follows_target": via_link_1 == direct_1})
 }
 
 fn run_case(case: &Value, base: &Path) -> Value {
